@@ -530,7 +530,7 @@ func (vc *VC) load(st *State, addr *SV, t types.Type, hint string) *SV {
 	}
 	v := &SV{T: t, C: make([]string, len(l))}
 	for i, s := range l {
-		v.C[i] = vc.defS(s, vc.known(sel2(st.H[s.heap()], addr.C[0], cellIdx(addr.C[1], i))), hint)
+		v.C[i] = vc.defS(s, vc.readCell(st.H[s.heap()], addr.C[0], cellIdx(addr.C[1], i)), hint)
 		if s == SRef {
 			vc.assume(app("bvult", v.C[i], st.H["next"]))
 			if vc.entry != nil {
@@ -1018,7 +1018,7 @@ func (vc *VC) typeAssert(f *Frame, n *Node, in *ssa.TypeAssert) *SV {
 			key := x.C[0] + " implements " + at.String()
 			d, have := vc.decisions[key]
 			if !have {
-				panic(needDecision{key})
+				panic(needDecision{key: key})
 			}
 			p := vc.uf("implements_"+sanitize(at.String()), SBool, STid)
 			if d {
@@ -1051,7 +1051,10 @@ func (vc *VC) typeAssert(f *Frame, n *Node, in *ssa.TypeAssert) *SV {
 	return tup
 }
 
-type needDecision struct{ key string }
+type needDecision struct {
+	key    string
+	values []int64 // nil: a boolean decision; otherwise one VC per value
+}
 
 func (vc *VC) panicAt(f *Frame, n *Node, in *ssa.Panic) {
 	if f.depth == 0 && f.panicsC != "" {
